@@ -237,6 +237,9 @@ class Scheduler:
             t.done, t.outcome, t.pending = True, ("return", e.value), None
             return
         except BaseException as e:  # noqa: B902
+            # a stored exception must not keep the frames it travelled through (and their locals,
+            # e.g. buffers of the code under test) alive: retention checks look at weak references
+            e.__traceback__ = None
             t.done, t.outcome, t.pending = True, ("raise", e), None
             return
         finally:
